@@ -983,6 +983,11 @@ func (c *Compiler) compileCall(node *ast.Call) error {
 	if argc > MaxArgs {
 		return fmt.Errorf("compile error: max args limit of %d exceeded (got %d)", MaxArgs, argc)
 	}
+	// Only the call that forms a pipe stage is a partial: calls nested in its
+	// function expression and in its arguments are ordinary calls
+	partial := c.current.pipeActive
+	c.current.pipeActive = false
+	defer func() { c.current.pipeActive = partial }()
 	if err := c.compile(node.Function()); err != nil {
 		return err
 	}
@@ -991,7 +996,7 @@ func (c *Compiler) compileCall(node *ast.Call) error {
 			return err
 		}
 	}
-	if c.current.pipeActive {
+	if partial {
 		c.emit(op.Partial, uint16(argc))
 	} else {
 		c.emit(op.Call, uint16(argc))
@@ -1000,6 +1005,11 @@ func (c *Compiler) compileCall(node *ast.Call) error {
 }
 
 func (c *Compiler) compileObjectCall(node *ast.ObjectCall) error {
+	// Only the call that forms a pipe stage is a partial: calls nested in its
+	// object expression and in its arguments are ordinary calls
+	partial := c.current.pipeActive
+	c.current.pipeActive = false
+	defer func() { c.current.pipeActive = partial }()
 	if err := c.compile(node.Object()); err != nil {
 		return err
 	}
@@ -1020,7 +1030,7 @@ func (c *Compiler) compileObjectCall(node *ast.ObjectCall) error {
 			return err
 		}
 	}
-	if c.current.pipeActive {
+	if partial {
 		c.emit(op.Partial, uint16(len(args)))
 	} else {
 		c.emit(op.Call, uint16(len(args)))
